@@ -135,7 +135,15 @@ pub fn monitor_excludes() -> Vec<(usize, usize)> {
         real(b"gettimeofday\0", &REAL_GETTIMEOFDAY);
         real(b"time\0", &REAL_TIME);
     }
-    vec![a(&GETENV_CALLS), a(&RELATIVE_OPENS), a(&ALL_OPENS), a(&REAL_OPEN64), a(&REAL_OPEN), a(&REAL_OPENAT), a(&REAL_OPENAT64), a(&STD_STREAM_WRITES), a(&REAL_WRITE), a(&REAL_WRITEV), a(&FILE_LOCK_CALLS), a(&REAL_FLOCK), a(&MID_PROBE), a(&MID_CHANGES), a(&MID_PROBES), a(&CLOCK_READS), a(&FAKE_CLOCK_ON), a(&FAKE_SEC), a(&FAKE_NSEC), a(&REAL_CLOCK_GETTIME), a(&REAL_GETTIMEOFDAY), a(&REAL_TIME)]
+    let mut v = process_state_excludes();
+    v.extend(vec![a(&GETENV_CALLS), a(&RELATIVE_OPENS), a(&ALL_OPENS), a(&REAL_OPEN64), a(&REAL_OPEN), a(&REAL_OPENAT), a(&REAL_OPENAT64), a(&STD_STREAM_WRITES), a(&REAL_WRITE), a(&REAL_WRITEV), a(&FILE_LOCK_CALLS), a(&REAL_FLOCK), a(&MID_PROBE), a(&MID_CHANGES), a(&MID_PROBES), a(&CLOCK_READS), a(&FAKE_CLOCK_ON), a(&FAKE_SEC), a(&FAKE_NSEC), a(&REAL_CLOCK_GETTIME), a(&REAL_GETTIMEOFDAY), a(&REAL_TIME)]);
+    v
+}
+
+unsafe fn note_open_flags(flags: libc::c_int) {
+    if (flags & libc::O_ACCMODE) != libc::O_RDONLY || flags & (libc::O_CREAT | libc::O_TRUNC | libc::O_APPEND) != 0 {
+        FS_MUTATIONS.fetch_add(1, Ordering::Relaxed);
+    }
 }
 
 unsafe fn note_open(path: *const libc::c_char) {
@@ -157,6 +165,7 @@ unsafe fn real(name: &[u8], slot: &AtomicU64) -> usize {
 #[no_mangle]
 pub unsafe extern "C" fn open64(path: *const libc::c_char, flags: libc::c_int, mode: libc::mode_t) -> libc::c_int {
     note_open(path);
+    note_open_flags(flags);
     type F = unsafe extern "C" fn(*const libc::c_char, libc::c_int, libc::mode_t) -> libc::c_int;
     let p = real(b"open64\0", &REAL_OPEN64);
     if p == 0 {
@@ -169,6 +178,7 @@ pub unsafe extern "C" fn open64(path: *const libc::c_char, flags: libc::c_int, m
 #[no_mangle]
 pub unsafe extern "C" fn open(path: *const libc::c_char, flags: libc::c_int, mode: libc::mode_t) -> libc::c_int {
     note_open(path);
+    note_open_flags(flags);
     type F = unsafe extern "C" fn(*const libc::c_char, libc::c_int, libc::mode_t) -> libc::c_int;
     let p = real(b"open\0", &REAL_OPEN);
     if p == 0 {
@@ -183,6 +193,7 @@ pub unsafe extern "C" fn openat(dirfd: libc::c_int, path: *const libc::c_char, f
     if dirfd == libc::AT_FDCWD {
         note_open(path);
     }
+    note_open_flags(flags);
     type F = unsafe extern "C" fn(libc::c_int, *const libc::c_char, libc::c_int, libc::mode_t) -> libc::c_int;
     let p = real(b"openat\0", &REAL_OPENAT);
     if p == 0 {
@@ -197,6 +208,7 @@ pub unsafe extern "C" fn openat64(dirfd: libc::c_int, path: *const libc::c_char,
     if dirfd == libc::AT_FDCWD {
         note_open(path);
     }
+    note_open_flags(flags);
     type F = unsafe extern "C" fn(libc::c_int, *const libc::c_char, libc::c_int, libc::mode_t) -> libc::c_int;
     let p = real(b"openat64\0", &REAL_OPENAT64);
     if p == 0 {
@@ -253,6 +265,85 @@ pub unsafe extern "C" fn flock(fd: libc::c_int, op: libc::c_int) -> libc::c_int 
     }
     let f: F = std::mem::transmute(p);
     f(fd, op)
+}
+
+// ------------------------------------------------------------------------------------------ writes to process-wide state outside memory
+//
+// State a safe-Rust library can reach through std without a single static of its own: the environment block (setenv), the
+// current directory, the file system (a cache file is global state shared with every thread and process), child processes,
+// signal dispositions, the standard input stream. Each libc entry point is interposed and counted; an operation must make none
+// of these calls.
+
+pub static ENV_WRITES: AtomicU64 = AtomicU64::new(0);
+pub static CWD_CHANGES: AtomicU64 = AtomicU64::new(0);
+pub static FS_MUTATIONS: AtomicU64 = AtomicU64::new(0);
+pub static PROCESS_SPAWNS: AtomicU64 = AtomicU64::new(0);
+pub static SIGNAL_CHANGES: AtomicU64 = AtomicU64::new(0);
+pub static STDIN_READS: AtomicU64 = AtomicU64::new(0);
+
+macro_rules! interpose {
+    ($name:ident, $slot:ident, $counter:ident, ($($a:ident : $t:ty),*) -> $r:ty, $fail:expr, $count_if:expr) => {
+        static $slot: AtomicU64 = AtomicU64::new(0);
+        #[no_mangle]
+        pub unsafe extern "C" fn $name($($a: $t),*) -> $r {
+            if $count_if {
+                $counter.fetch_add(1, Ordering::Relaxed);
+            }
+            type F = unsafe extern "C" fn($($t),*) -> $r;
+            let p = real(concat!(stringify!($name), "\0").as_bytes(), &$slot);
+            if p == 0 {
+                return $fail;
+            }
+            let f: F = std::mem::transmute(p);
+            f($($a),*)
+        }
+    };
+}
+type Cs = *const libc::c_char;
+interpose!(setenv, REAL_SETENV, ENV_WRITES, (a: Cs, b: Cs, c: libc::c_int) -> libc::c_int, -1, true);
+interpose!(unsetenv, REAL_UNSETENV, ENV_WRITES, (a: Cs) -> libc::c_int, -1, true);
+interpose!(putenv, REAL_PUTENV, ENV_WRITES, (a: *mut libc::c_char) -> libc::c_int, -1, true);
+interpose!(clearenv, REAL_CLEARENV, ENV_WRITES, () -> libc::c_int, -1, true);
+interpose!(chdir, REAL_CHDIR, CWD_CHANGES, (a: Cs) -> libc::c_int, -1, true);
+interpose!(fchdir, REAL_FCHDIR, CWD_CHANGES, (a: libc::c_int) -> libc::c_int, -1, true);
+interpose!(mkdir, REAL_MKDIR, FS_MUTATIONS, (a: Cs, m: libc::mode_t) -> libc::c_int, -1, true);
+interpose!(mkdirat, REAL_MKDIRAT, FS_MUTATIONS, (d: libc::c_int, a: Cs, m: libc::mode_t) -> libc::c_int, -1, true);
+interpose!(rmdir, REAL_RMDIR, FS_MUTATIONS, (a: Cs) -> libc::c_int, -1, true);
+interpose!(unlink, REAL_UNLINK, FS_MUTATIONS, (a: Cs) -> libc::c_int, -1, true);
+interpose!(unlinkat, REAL_UNLINKAT, FS_MUTATIONS, (d: libc::c_int, a: Cs, f: libc::c_int) -> libc::c_int, -1, true);
+interpose!(rename, REAL_RENAME, FS_MUTATIONS, (a: Cs, b: Cs) -> libc::c_int, -1, true);
+interpose!(renameat, REAL_RENAMEAT, FS_MUTATIONS, (d: libc::c_int, a: Cs, e: libc::c_int, b: Cs) -> libc::c_int, -1, true);
+interpose!(renameat2, REAL_RENAMEAT2, FS_MUTATIONS, (d: libc::c_int, a: Cs, e: libc::c_int, b: Cs, f: libc::c_uint) -> libc::c_int, -1, true);
+interpose!(symlink, REAL_SYMLINK, FS_MUTATIONS, (a: Cs, b: Cs) -> libc::c_int, -1, true);
+interpose!(symlinkat, REAL_SYMLINKAT, FS_MUTATIONS, (a: Cs, d: libc::c_int, b: Cs) -> libc::c_int, -1, true);
+interpose!(link, REAL_LINK, FS_MUTATIONS, (a: Cs, b: Cs) -> libc::c_int, -1, true);
+interpose!(linkat, REAL_LINKAT, FS_MUTATIONS, (d: libc::c_int, a: Cs, e: libc::c_int, b: Cs, f: libc::c_int) -> libc::c_int, -1, true);
+interpose!(truncate, REAL_TRUNCATE, FS_MUTATIONS, (a: Cs, n: libc::off_t) -> libc::c_int, -1, true);
+interpose!(truncate64, REAL_TRUNCATE64, FS_MUTATIONS, (a: Cs, n: libc::off64_t) -> libc::c_int, -1, true);
+interpose!(ftruncate, REAL_FTRUNCATE, FS_MUTATIONS, (a: libc::c_int, n: libc::off_t) -> libc::c_int, -1, true);
+interpose!(ftruncate64, REAL_FTRUNCATE64, FS_MUTATIONS, (a: libc::c_int, n: libc::off64_t) -> libc::c_int, -1, true);
+interpose!(chmod, REAL_CHMOD, FS_MUTATIONS, (a: Cs, m: libc::mode_t) -> libc::c_int, -1, true);
+interpose!(fchmod, REAL_FCHMOD, FS_MUTATIONS, (a: libc::c_int, m: libc::mode_t) -> libc::c_int, -1, true);
+interpose!(creat, REAL_CREAT, FS_MUTATIONS, (a: Cs, m: libc::mode_t) -> libc::c_int, -1, true);
+interpose!(fork, REAL_FORK, PROCESS_SPAWNS, () -> libc::pid_t, -1, true);
+interpose!(posix_spawn, REAL_POSIX_SPAWN, PROCESS_SPAWNS, (a: *mut libc::pid_t, b: Cs, c: *const libc::c_void, d: *const libc::c_void, e: *const *mut libc::c_char, f: *const *mut libc::c_char) -> libc::c_int, libc::ENOSYS, true);
+interpose!(posix_spawnp, REAL_POSIX_SPAWNP, PROCESS_SPAWNS, (a: *mut libc::pid_t, b: Cs, c: *const libc::c_void, d: *const libc::c_void, e: *const *mut libc::c_char, f: *const *mut libc::c_char) -> libc::c_int, libc::ENOSYS, true);
+interpose!(sigaction, REAL_SIGACTION, SIGNAL_CHANGES, (s: libc::c_int, a: *const libc::sigaction, o: *mut libc::sigaction) -> libc::c_int, -1, !a.is_null());
+interpose!(signal, REAL_SIGNAL, SIGNAL_CHANGES, (s: libc::c_int, h: libc::sighandler_t) -> libc::sighandler_t, libc::SIG_ERR, true);
+interpose!(read, REAL_READ, STDIN_READS, (fd: libc::c_int, b: *mut libc::c_void, n: libc::size_t) -> libc::ssize_t, -1, fd == 0);
+
+/// (label, counter) of the process-state write monitors
+pub fn process_state_counters() -> [(&'static str, &'static AtomicU64); 6] {
+    [("environment writes (setenv / unsetenv / putenv)", &ENV_WRITES), ("current-directory changes", &CWD_CHANGES), ("file-system mutations (create / write-open / mkdir / unlink / rename / link / truncate / chmod)", &FS_MUTATIONS), ("child processes (fork / posix_spawn)", &PROCESS_SPAWNS), ("signal dispositions changed (sigaction / signal)", &SIGNAL_CHANGES), ("reads of the standard input", &STDIN_READS)]
+}
+
+fn process_state_excludes() -> Vec<(usize, usize)> {
+    let a = |x: &AtomicU64| (x as *const AtomicU64 as usize, 8usize);
+    let mut v = vec![a(&ENV_WRITES), a(&CWD_CHANGES), a(&FS_MUTATIONS), a(&PROCESS_SPAWNS), a(&SIGNAL_CHANGES), a(&STDIN_READS)];
+    for s in [&REAL_SETENV, &REAL_UNSETENV, &REAL_PUTENV, &REAL_CLEARENV, &REAL_CHDIR, &REAL_FCHDIR, &REAL_MKDIR, &REAL_MKDIRAT, &REAL_RMDIR, &REAL_UNLINK, &REAL_UNLINKAT, &REAL_RENAME, &REAL_RENAMEAT, &REAL_RENAMEAT2, &REAL_SYMLINK, &REAL_SYMLINKAT, &REAL_LINK, &REAL_LINKAT, &REAL_TRUNCATE, &REAL_TRUNCATE64, &REAL_FTRUNCATE, &REAL_FTRUNCATE64, &REAL_CHMOD, &REAL_FCHMOD, &REAL_CREAT, &REAL_FORK, &REAL_POSIX_SPAWN, &REAL_POSIX_SPAWNP, &REAL_SIGACTION, &REAL_SIGNAL, &REAL_READ] {
+        v.push(a(s));
+    }
+    v
 }
 
 /// Mid-operation probe: the injected readers are user code that runs INSIDE an operation; they compare the monitored
@@ -904,6 +995,7 @@ pub fn run(args: &Args) -> i32 {
             let lk_before = FILE_LOCK_CALLS.load(Ordering::Relaxed);
             let clk_before = CLOCK_READS.load(Ordering::Relaxed);
             let mid_before = MID_CHANGES.load(Ordering::Relaxed);
+            let ps_before: Vec<u64> = process_state_counters().iter().map(|c| c.1.load(Ordering::Relaxed)).collect();
             regions.snapshot(&mut snap);
             let mp = MidProbe { regions: &regions, snap: &snap, exclude: &exclude };
             MID_PROBE.store(&mp as *const MidProbe as u64, Ordering::Relaxed);
@@ -942,6 +1034,12 @@ pub fn run(args: &Args) -> i32 {
             }
             if !stored.is_empty() {
                 rec.violation("global_write_trap", case(), json!("no store into the executable's .data/.bss during an operation (whatever value is stored: a value written and restored is a write)"), json!(stored.iter().map(|a| format!("store to address {a:#x}")).collect::<Vec<_>>()));
+            }
+            for (k, (label, c)) in process_state_counters().iter().enumerate() {
+                let now = c.load(Ordering::Relaxed);
+                if now != ps_before[k] {
+                    rec.violation("process_state_write_monitor", case(), json!("an operation changes no process-wide state: environment, current directory, file system, child processes, signal dispositions, standard input"), json!({"what": label, "calls": now - ps_before[k]}));
+                }
             }
             if env_after != env_before {
                 rec.violation("environment_read_monitor", case(), json!("no getenv call during an operation"), json!({"getenv_calls": env_after - env_before}));
@@ -1067,7 +1165,7 @@ pub fn run(args: &Args) -> i32 {
     rec.sub("monitor_selftest", selftest.clone());
     reset_ambient();
     remove_decoys();
-    if selftest["static_write_seen"] != true || selftest["tls_write_seen"] != true || selftest["getenv_seen"] != true || selftest["relative_open_seen"] != true || selftest["absolute_open_not_flagged"] != true || selftest["stderr_write_seen"] != true || selftest["clock_read_seen"] != true || selftest["write_trap_sees_restored_store"] != true || selftest["write_trap_quiet_without_store"] != true || selftest["mid_operation_probes_run"].as_u64().unwrap_or(0) == 0 {
+    if selftest["static_write_seen"] != true || selftest["tls_write_seen"] != true || selftest["getenv_seen"] != true || selftest["relative_open_seen"] != true || selftest["absolute_open_not_flagged"] != true || selftest["stderr_write_seen"] != true || selftest["clock_read_seen"] != true || selftest["process_state_writes_seen"] != true || selftest["write_trap_sees_restored_store"] != true || selftest["write_trap_quiet_without_store"] != true || selftest["mid_operation_probes_run"].as_u64().unwrap_or(0) == 0 {
         eprintln!("MACHINERY: monitor self-test failed: {selftest}");
         return 4;
     }
@@ -1118,6 +1216,31 @@ fn monitor_selftest(regions: &Regions, exclude: &[(usize, usize)]) -> Value {
     let c0 = CLOCK_READS.load(Ordering::Relaxed);
     let _ = std::time::SystemTime::now();
     let s7 = CLOCK_READS.load(Ordering::Relaxed) > c0;
+    // process-state write monitors: each group must count its own std-level operation
+    let cnt = |k: usize| process_state_counters()[k].1.load(Ordering::Relaxed);
+    let (e0, d0, f0, p0, g0, i0) = (cnt(0), cnt(1), cnt(2), cnt(3), cnt(4), cnt(5));
+    std::env::set_var("TZRS_VERIF_SELFTEST", "1");
+    std::env::remove_var("TZRS_VERIF_SELFTEST");
+    let _ = std::env::set_current_dir("/");
+    let tmp = std::env::temp_dir().join(format!("tzrs-verif-selftest-{}", std::process::id()));
+    let _ = std::fs::write(&tmp, b"x");
+    let f_after_write = cnt(2);
+    let _ = std::fs::remove_file(&tmp);
+    let f_after_remove = cnt(2);
+    let _ = std::fs::read("/etc/hostname");
+    let f_after_read = cnt(2);
+    let _ = std::process::Command::new("/bin/true").status();
+    unsafe {
+        let mut old: libc::sigaction = std::mem::zeroed();
+        libc::sigaction(libc::SIGUSR2, std::ptr::null(), &mut old);
+        let g_query = cnt(4);
+        libc::sigaction(libc::SIGUSR2, &old, std::ptr::null_mut());
+        let mut b = [0u8; 1];
+        libc::read(0, b.as_mut_ptr() as *mut libc::c_void, 0);
+        let ps_ok = cnt(0) >= e0 + 2 && cnt(1) > d0 && f_after_write > f0 && f_after_remove > f_after_write && f_after_read == f_after_remove && cnt(3) > p0 && g_query == g0 && cnt(4) > g_query && cnt(5) > i0;
+        return json!({"process_state_writes_seen": ps_ok, "clock_read_seen": s7, "static_write_seen": s1, "tls_write_seen": s2, "getenv_seen": s3, "relative_open_seen": s4, "absolute_open_not_flagged": s5, "stderr_write_seen": s6, "mid_operation_probes_run": MID_PROBES.load(Ordering::Relaxed)});
+    }
+    #[allow(unreachable_code)]
     json!({"clock_read_seen": s7, "static_write_seen": s1, "tls_write_seen": s2, "getenv_seen": s3, "relative_open_seen": s4, "absolute_open_not_flagged": s5, "stderr_write_seen": s6, "mid_operation_probes_run": MID_PROBES.load(Ordering::Relaxed)})
 }
 
